@@ -205,6 +205,23 @@ func run(r *core.Run) int {
 		}
 	}
 	r.Set("complete_table_cells", len(jobs))
+	// responders that never answer: the client's own (short, real) timeout ends
+	// the OCSP phase, and the CRL phase must still run to completion afterwards
+	for _, o := range [][]string{{"hang"}, {"hang", "hang"}, {"err", "hang"}, {"hang", "good"}} {
+		for _, c := range [][]string{{"clean"}, {"lists"}, {"clean", "delta-ok"}, {}} {
+			for _, route := range []string{"http", "fetcher"} {
+				for _, l := range []int{2, 3} {
+					sc := &sims.Scenario{Len: l, CAKind: "p256", Entry: "validate", CRLRoute: route, ClientTimeoutMs: 20}
+					sc.Plans = make([]sims.CertPlan, l)
+					sc.Plans[0] = plan(o, c)
+					if l == 3 {
+						sc.Plans[1] = plan([]string{"hang"}, []string{"clean"})
+					}
+					add(sc)
+				}
+			}
+		}
+	}
 	// sampled: richer alphabets, up to 3+3, longer chains
 	rng := r.Rand("sampled")
 	n := r.Pick(6000, 150000)
